@@ -26,8 +26,8 @@ Section Split.
   Proof.
     intros VK Hp Hin. unfold poe_cell. destruct (it_id x pos =? K) eqn:E.
     - apply Z.eqb_eq in E. split; [reflexivity|]. split; [split|].
-      + intros es H e He. cbn in H. injection H as <-. rewrite (it_cell_at x pos) in He.
-        exists (cell_at x pos). split; [apply cell_at_in; exact Hp|exact He].
+      + intros es H. cbn in H. injection H as <-.
+        exists (cell_at x pos). split; [apply cell_at_in; exact Hp|]. cbn. rewrite <- it_id_at, it_cell_at. auto.
       + cbn. discriminate.
       + intros c Hc Hr. destruct (in_cell_at x c Hc) as (j & Hj & <-). left. cbn.
         assert (j = pos).
